@@ -53,6 +53,7 @@ THEOREMS = [
     "Nix.C16.C16_storage_simulates",
     "Nix.C16.C16_storage_reads",
     "Nix.C16.C16_text_roundtrip",
+    "Nix.C16.C16_getitem_is_table",
     # shape of the source (Generated/FrameShape.lean, regenerated on every run)
     "Nix.C16.C16_handles_stateless",
     "Nix.C16.C16_guards_as_modelled",
@@ -448,6 +449,17 @@ class Session:
             if res.dtype.fields:
                 return [row_cells(r) for r in res]
             return [[cell(v)] for v in res]
+        if op in ("read_columns_grouped_idx", "read_columns_grouped_name"):
+            slc = None if (a[1] is None and a[2] is None and pres % 2) else slice(a[1], a[2])
+            kw = {"index": list(a[0])} if op.endswith("idx") else {"name": list(a[0])}
+            res = df.read_columns(slc=slc, group_by_cols=True, **kw)
+            if res.ndim == 1:
+                return [[cell(v)] for v in res]
+            return [[cell(v) for v in col] for col in res]
+        if op == "getitem_name":
+            return [cell(v) for v in df[a[0]]]
+        if op == "getitem_slice":
+            return [row_cells(r) for r in df[slice(a[0], a[1])]]
         if op == "read_cell_pos":
             return cell(df.read_cell(position=list(a[0])))
         if op == "read_cell_name":
@@ -760,7 +772,9 @@ def gen_create(rng, stats):
 
 WRITE_OPS = ["append_rows", "append_column", "write_rows", "write_row_flat", "write_column", "write_cell_pos",
              "write_cell_name", "set_units"]
-READ_OPS = ["read_row", "read_rows", "read_columns_idx", "read_columns_name", "read_cell_pos", "read_cell_name"]
+READ_OPS = ["read_row", "read_rows", "read_columns_idx", "read_columns_name", "read_cell_pos", "read_cell_name",
+            "read_columns_grouped_idx", "read_columns_grouped_name", "getitem_name", "getitem_slice"]
+KIND = {"text": "s", "bool": "b", "f64": "f", "i8": "i", "i16": "i", "i32": "i", "i64": "i", "u8": "i"}
 
 
 def gen_op(rng, st, stats):
@@ -1014,6 +1028,27 @@ def gen_op(rng, st, stats):
         if rng.random() < 0.12:
             nms[-1] = "nope"
         return ["read_columns_name", nms, lo, hi], pres
+    if kind in ("read_columns_grouped_idx", "read_columns_grouped_name"):
+        # columns of one kind: NumPy keeps the cells of a 2-D array of one type as they are
+        c0 = rng.randrange(m)
+        same = [c for c in range(m) if KIND[types[c]] == KIND[types[c0]]]
+        cs = [c0] + [rng.choice(same) for _ in range(rng.choice([0, 1, 1, 2]))]
+        lo = rng.choice([None, None, 0, 1, -2, -n - 3, n])
+        hi = rng.choice([None, None, n, n - 1, -1, n + 5, 0])
+        if kind.endswith("idx"):
+            idx = [c if rng.random() < 0.7 else c - m for c in cs]
+            if rng.random() < 0.1:
+                idx[-1] = rng.choice([m, -m - 1])
+            return [kind, idx, lo, hi], pres
+        nms = [names[c] for c in cs]
+        if rng.random() < 0.1:
+            nms[-1] = "nope"
+        return [kind, nms, lo, hi], pres
+    if kind == "getitem_name":
+        return ["getitem_name", names[rng.choice([0, m - 1, rng.randrange(m)])] if rng.random() < 0.9 else "nope"], pres
+    if kind == "getitem_slice":
+        return ["getitem_slice", rng.choice([None, None, 0, 1, -1, -2, -n - 3, n, n + 2]),
+                rng.choice([None, None, n, n - 1, -1, 1, n + 5, 0, -n - 1])], pres
     if kind == "read_cell_pos":
         if n == 0:
             return ["read_cell_pos", [0, 0]], pres
@@ -1282,6 +1317,26 @@ def oracle_history(ctx, k, rng, nops, fixed=None):
             if r != {"ok": want2}:
                 return fail("read_columns of two columns does not return them in the requested order", r, want2,
                             "read_columns")
+        for c in sorted({0, m - 1}):
+            r = s.run(["getitem_name", sh.names[c]])
+            want_col = [row[c] for row in sh.rows]
+            if r != {"ok": want_col}:
+                return fail("frame[%r] does not return the written column" % sh.names[c], r, want_col,
+                            "DataSet.__getitem__")
+        for lo, hi in ((1, None), (None, -1)):
+            r = s.run(["getitem_slice", lo, hi])
+            want_rows = sh.rows[slice(lo, hi)]
+            if r != {"ok": want_rows}:
+                return fail("frame[%r:%r] does not return the written rows" % (lo, hi), r, want_rows,
+                            "DataSet.__getitem__")
+        pair = [(c, d) for c in range(m) for d in range(m) if c < d and KIND[sh.types[c]] == KIND[sh.types[d]]]
+        if pair:
+            c, d = pair[-1]
+            r = s.run(["read_columns_grouped_idx", [d, c], None, None])
+            want2 = [[row[d] for row in sh.rows], [row[c] for row in sh.rows]]
+            if r != {"ok": want2}:
+                return fail("read_columns(group_by_cols=True) of two columns of one kind does not return the written "
+                            "columns in the requested order", r, want2, "read_columns")
         return None
 
     try:
